@@ -243,7 +243,14 @@ def scaled_file(rng, tname, props, place, n=6, chunks=2):
     nv = n // chunks
     ch = {"path": "/'g'/'c'", "index": ("full", RAW_TYPES[tname], nv), "props": props if place == "channel" else []}
     data = b"".join(B.enc_values(RAW_TYPES[tname], vals[c * nv:(c + 1) * nv]) for c in range(chunks))
-    return B.enc_segment([root, grp, ch], data), vals[:nv * chunks]
+    # object order in the file is free: the scaling lookup (channel, else group, else file) must not depend on
+    # whether the group / root object is listed before or after the channel, or only in a later segment
+    order = rng.choice(["root-group-channel", "channel-group-root", "channel-first-group-in-later-segment"])
+    if order == "root-group-channel":
+        return B.enc_segment([root, grp, ch], data), vals[:nv * chunks]
+    if order == "channel-group-root":
+        return B.enc_segment([ch, grp, root], data), vals[:nv * chunks]
+    return B.enc_segment([ch], data) + B.enc_segment([grp, root], b"", toc=B.TOC_META | B.TOC_NEW), vals[:nv * chunks]
 
 
 @runner("C13")
